@@ -184,10 +184,10 @@ MCFairSpec == MCSpec /\ WF_mcvars(ProcStep) /\ \A c \in Clients : WF_mcvars(Clie
 \* every behaviour ends (budgets are finite): terminal states are legitimate, others are deadlocks
 AllDone == \A c \in Clients : cli[c].pc = "idle"
 \* C10 / C12 liveness: every started call returns
-\* a call may stay blocked for ever only under known finding D6 (orphaned wait marker)
-EveryCallReturns == \A c \in Clients : (cli[c].pc # "idle") ~> (cli[c].pc = "idle" \/ "D6" \in kf)
-\* the same without the exemption: expected to be VIOLATED (witness that D6 is reachable and that the liveness check bites)
-EveryCallReturnsStrict == \A c \in Clients : (cli[c].pc # "idle") ~> (cli[c].pc = "idle")
+\* C10 / C12 liveness: every started call returns (before fix D6 a waiter whose marker the stopping processor destroyed
+\* stayed blocked for ever and this property carried an exemption for it)
+EveryCallReturns == \A c \in Clients : (cli[c].pc # "idle") ~> (cli[c].pc = "idle")
+EveryCallReturnsStrict == EveryCallReturns
 \* C12: after a close() has returned Ok both workers are gone (sync) / have their stop signal (async)
 WorkersStop == (closed) ~> (proc.pc = "exited" /\ (~pol.alive \/ pol.q > 0))
 \* C12: after the last handle was dropped (without close()) both workers are gone
